@@ -192,8 +192,8 @@ def collectOf (f : Fam) (max : Option Nat) (nd : Net × Dest) : Option Change :=
   else some { fam := f, net := nd.1, destId := nd.2.id, best := true, any := true, replaced := none,
               paths := collectPaths max nd }
 
-theorem collect_eq (f : Fam) (r : Rib) (max : Option Nat) : r.collect f max = r.dests.filterMap (collectOf f max) := by
-  unfold Rib.collect
+theorem collect_eq (f : Fam) (r : Rib) (max : Option Nat) : r.collectAll f max = r.dests.filterMap (collectOf f max) := by
+  unfold Rib.collectAll
   congr 1
 
 theorem collectOf_some {f : Fam} {max : Option Nat} {nd : Net × Dest} {ch : Change}
@@ -225,7 +225,7 @@ theorem collectOf_net {f : Fam} {max : Option Nat} {nd : Net × Dest} {ch : Chan
   rw [(collectOf_some h).2]
 
 theorem collect_nets_nodup (f : Fam) (r : Rib) (max : Option Nat) (hk : (r.dests.map (·.1)).Nodup) :
-    ((r.collect f max).map (·.net)).Nodup := by
+    ((r.collectAll f max).map (·.net)).Nodup := by
   rw [collect_eq]
   have : ((r.dests.filterMap (collectOf f max)).map (·.net)).Sublist (r.dests.map (·.1)) := by
     induction r.dests with
@@ -274,19 +274,28 @@ theorem filterMap_collect_find (f : Fam) (max : Option Nat) (l : List (Net × De
         exact ih'
 
 theorem collect_find (f : Fam) (r : Rib) (max : Option Nat) (hk : (r.dests.map (·.1)).Nodup) (n : Net) :
-    (r.collect f max).find? (fun ch => ch.net = n) = (alookup n r.dests).bind (fun d => collectOf f max (n, d)) := by
+    (r.collectAll f max).find? (fun ch => ch.net = n) = (alookup n r.dests).bind (fun d => collectOf f max (n, d)) := by
   rw [collect_eq]; exact filterMap_collect_find f max r.dests hk n
 
 theorem mem_collect {f : Fam} {r : Rib} {max : Option Nat} {ch : Change} :
-    ch ∈ r.collect f max ↔ ∃ nd ∈ r.dests, collectOf f max nd = some ch := by
+    ch ∈ r.collectAll f max ↔ ∃ nd ∈ r.dests, collectOf f max nd = some ch := by
   rw [collect_eq, List.mem_filterMap]
 
+theorem collect_not_deferring {r : Rib} (h : r.deferring = false) (f : Fam) (max : Option Nat) :
+    r.collect f max = r.collectAll f max := by
+  unfold Rib.collect; rw [h]; rfl
+
+theorem collect_deferring {r : Rib} (h : r.deferring = true) (f : Fam) (max : Option Nat) : r.collect f max = [] := by
+  unfold Rib.collect; rw [h]; rfl
+
 /-- looking a prefix up in the observed Loc-RIB dump -/
-theorem famObs_loc_find (t : Table) (f : Fam) (h : RibInv c g t.flags f (t.rib f)) (n : Net) :
+theorem famObs_loc_find (t : Table) (f : Fam) (h : RibInv c g t.flags f (t.rib f))
+    (hd : (t.rib f).deferring = false) (n : Net) :
     (famObs c t f).loc.find? (fun l => l.net = n) =
       if (t.elig f n).isEmpty then none
       else (t.destId f n).map fun i => locOf c.shard t.flags n i (t.elig f n) := by
   simp only [famObs]
+  rw [collect_not_deferring hd]
   rw [find?_sortOn_net]
   · rw [List.find?_map]
     have : ((fun l : LocObs => decide (l.net = n)) ∘ fun (ch : Change) =>
@@ -309,14 +318,23 @@ theorem famObs_loc_mem (t : Table) (f : Fam) {l : LocObs} (hl : l ∈ (famObs c 
       l = locOf c.shard t.flags nd.1 nd.2.id (nd.2.entries.filter Entry.eligible) := by
   simp only [famObs, mem_sortOn, List.mem_map] at hl
   obtain ⟨ch, hch, rfl⟩ := hl
+  have hd : (t.rib f).deferring = false := by
+    cases hx : (t.rib f).deferring with
+    | false => rfl
+    | true => rw [collect_deferring hx] at hch; exact absurd hch List.not_mem_nil
+  rw [collect_not_deferring hd] at hch
   obtain ⟨nd, hnd, hc⟩ := mem_collect.mp hch
   obtain ⟨hne, rfl⟩ := collectOf_some hc
   refine ⟨nd, hnd, ?_, rfl⟩
   intro he
   simp [collectPaths, he] at hne
 
+/-- a family whose route selection is deferred shows no Loc-RIB -/
+theorem famObs_loc_deferring (t : Table) (f : Fam) (hd : (t.rib f).deferring = true) : (famObs c t f).loc = [] := by
+  simp [famObs, collect_deferring hd, sortOn]
+
 theorem limOf_find (f : Fam) (r : Rib) (k : Nat) (hk0 : 0 < k) (hk : (r.dests.map (·.1)).Nodup) (n : Net) :
-    ((sortOn (fun a b => a.1.lt b.1) ((r.collect f (some k)).map fun ch => (ch.net, ch.paths.map (·.lpid)))).find?
+    ((sortOn (fun a b => a.1.lt b.1) ((r.collectAll f (some k)).map fun ch => (ch.net, ch.paths.map (·.lpid)))).find?
         (fun l => l.1 = n)).map (·.2) =
       (alookup n r.dests).bind fun d =>
         if (d.entries.filter Entry.eligible).isEmpty then none
@@ -344,19 +362,21 @@ theorem limOf_find (f : Fam) (r : Rib) (k : Nat) (hk0 : 0 < k) (hk : (r.dests.ma
     exact collect_nets_nodup f _ (some k) hk
 
 /-- looking a prefix up in the observed add-path dumps (N = 2, 3) -/
-theorem famObs_lim2_find (t : Table) (f : Fam) (h : RibInv c g t.flags f (t.rib f)) (n : Net) :
+theorem famObs_lim2_find (t : Table) (f : Fam) (h : RibInv c g t.flags f (t.rib f))
+    (hd : (t.rib f).deferring = false) (n : Net) :
     ((famObs c t f).lim2.find? (fun l => l.1 = n)).map (·.2) =
       if (t.elig f n).isEmpty then none else some (((t.elig f n).take 2).map (·.lpid)) := by
   simp only [famObs]
-  rw [limOf_find f _ 2 (by omega) h.keys n]
+  rw [collect_not_deferring hd, limOf_find f _ 2 (by omega) h.keys n]
   unfold Table.elig
   cases alookup n (t.rib f).dests <;> rfl
 
-theorem famObs_lim3_find (t : Table) (f : Fam) (h : RibInv c g t.flags f (t.rib f)) (n : Net) :
+theorem famObs_lim3_find (t : Table) (f : Fam) (h : RibInv c g t.flags f (t.rib f))
+    (hd : (t.rib f).deferring = false) (n : Net) :
     ((famObs c t f).lim3.find? (fun l => l.1 = n)).map (·.2) =
       if (t.elig f n).isEmpty then none else some (((t.elig f n).take 3).map (·.lpid)) := by
   simp only [famObs]
-  rw [limOf_find f _ 3 (by omega) h.keys n]
+  rw [collect_not_deferring hd, limOf_find f _ 3 (by omega) h.keys n]
   unfold Table.elig
   cases alookup n (t.rib f).dests <;> rfl
 
